@@ -33,6 +33,9 @@ def run(ctx):
     ctx.tlc("line-law", "MCLongLine", "MCLongLine_law.cfg", workers=4, timeout=900, emit=False)
     rl = ctx.tlc("long-line", "MCLongLine", "MCLongLine_quick.cfg" if q else "MCLongLine_thorough.cfg", workers=4, timeout=900)
     ctx.harness("long-line", binp, ["replay-roll1", "--kernels", TREND, "--in", rl["emitted"]] + extra + l1)
+    # one window of 56000 observations (tick data): n(n+1)(2n+1) * n leaves 64 bits beyond n = 55108
+    rh = ctx.tlc("huge-line", "MCLongLine", "MCLongLine_huge.cfg", workers=2, timeout=1800)
+    ctx.harness("huge-line", binp, ["replay-roll1", "--kernels", TREND, "--in", rh["emitted"]] + l1)
     # random deep pair histories (length 9, windows to 7): long enough for the running sums to carry rounding
     # residue in non-dyadic units (this is what exposed the single-pair ts_vcorr defect)
     r3 = ctx.tlc("roll2-sim", "MCRoll2", "MCRoll2_sim.cfg", sim=(40 if q else 3000, 9), workers=12, timeout=3000)
